@@ -373,6 +373,29 @@ def run(ctx):
                       "(an executor, its arrays, parameters and loop counters must be per call)" % decl.strip()[:60], line=c.line)
     if nst < 2 or nex < 1:
         raise AnalysisBroken("orcc wrapper emitter: %d block-scope static declarations, %d executor declarations found" % (nst, nex))
+    # once pairing at the emitter: after the emission of `orc_once_enter` every path of output_code_execute emits `orc_once_leave`
+    from flow import paths_avoiding as _pa
+    oce = otu.fn["output_code_execute"]
+
+    def _emits(word):
+        def pred(e_):
+            if e_.k != "CallExpr" or e_.name != "fprintf" or len(e_.args()) < 2:
+                return False
+            l_ = strip_casts(e_.args()[1])
+            return l_ is not None and l_.k == "StringLiteral" and word in l_.get("str", "")
+        return pred
+    ents = [c for c in oce.calls("fprintf") if _emits("orc_once_enter")(c)]
+    if not ents:
+        raise AnalysisBroken("output_code_execute: no emission of orc_once_enter")
+    for c in ents:
+        wpath = _pa(oce, c, _emits("orc_once_leave"))
+        rep.check(wpath is None, "D7-WRAPPER-STATE", where(oce), "once-leave-emitted@%d" % ents.index(c),
+                  "every wrapper that enters the once protocol also leaves it",
+                  "orcc can emit a wrapper that calls orc_once_enter and never orc_once_leave: the first caller keeps the once mutex for ever and "
+                  "every other thread blocks in orc_once_enter", line=c.line)
+
+    if ctx.tier == "thorough":
+        d8(ctx, rep)
 
 
 def _only_via_once_guard(cg, f, reach_init, depth=0):
@@ -400,3 +423,86 @@ def _only_via_once_guard(cg, f, reach_init, depth=0):
         if not guarded and not _only_via_once_guard(cg, h, reach_init, depth + 1):
             return False
     return True
+
+
+def d8(ctx, rep):
+    """thorough tier: the wrappers orcc (built from this tree) generates for the test corpus are analysed as C code:
+    once pairing on every path, no mutable function-static state, executor on the stack.  The generator is executed (as the
+    build does); the generated functions are not."""
+    import os, subprocess
+    from flow import paths_avoiding, atom as _atom
+    bdir = ctx.builddir
+    p = subprocess.run(["ninja", "-C", bdir, "tools/orcc"], stdout=subprocess.PIPE, stderr=subprocess.STDOUT, text=True)
+    orcc = os.path.join(bdir, "tools", "orcc")
+    if p.returncode != 0 or not os.path.exists(orcc):
+        raise AnalysisBroken("could not build orcc in scratch: " + p.stdout[-500:])
+    env = dict(os.environ, LD_LIBRARY_PATH=os.path.join(bdir, "orc"))
+    prelude = ("#include <stdint.h>\ntypedef uint8_t guint8; typedef int8_t gint8; typedef uint16_t guint16; typedef int16_t gint16;\n"
+               "typedef uint32_t guint32; typedef int32_t gint32; typedef uint64_t guint64; typedef int64_t gint64; typedef float gfloat; typedef double gdouble;\n")
+    nfun = nonce = 0
+    for rel, opts in (("testsuite/test.orc", ["--lazy-init"]), ("testsuite/test.orc", []), ("orc/orcfunctions.orc", ["--lazy-init"]),
+                      ("testsuite/test.orc", ["--lazy-init", "--no-backup"])):
+        src = os.path.join(ctx.repo, rel)
+        out = os.path.join(ctx.scratch, "gen8.c")
+        r = subprocess.run([orcc] + opts + ["--implementation", "-o", out, src], env=env, stdout=subprocess.PIPE, stderr=subprocess.STDOUT, text=True)
+        if r.returncode != 0:
+            raise AnalysisBroken("orcc failed on %s %s: %s" % (rel, opts, r.stdout[-300:]))
+        tag = "gen8_%s_%s" % (os.path.basename(rel).replace(".", "_"), "_".join(o.strip("-").replace("-", "") for o in opts) or "plain")
+        sdb = ctx.snippet_db(tag, prelude + open(out).read())
+        tu = sdb.tu(tag)
+        for f in tu.main_functions():
+            execs = [d for d in f.walk() if d.k == "VarDecl" and (d.get("ty") or "").replace("struct ", "").strip() in ("OrcExecutor", "_OrcExecutor")]
+            if not execs:
+                continue
+            nfun += 1
+            w = "tools/orcc.c (generated %s %s)" % (rel, " ".join(opts))
+            inst = f.name
+            statics = [d for d in f.walk() if d.k == "VarDecl" and d.get("static")]
+            badst = [d for d in statics if not ((d.get("ty") or "").startswith("const ") or "OrcOnce" in (d.get("ty") or "") or "volatile int" in (d.get("ty") or ""))]
+            rep.check(not badst and not any(d.get("static") for d in execs), "D8-GENERATED-WRAPPERS", w, "%s:no-static-state" % inst,
+                      "wrapper keeps its executor on the stack and no mutable static object",
+                      "generated wrapper %s declares static %s: shared between concurrent callers" % (f.name, [(d.name, d.get("ty")) for d in badst + [e for e in execs if e.get("static")]]))
+            enters = [c for c in f.calls("orc_once_enter")]
+            leaves = [c for c in f.calls("orc_once_leave")]
+            if not enters:
+                rep.check(not leaves, "D8-GENERATED-WRAPPERS", w, "%s:no-once" % inst, "no once protocol in this wrapper", "orc_once_leave without orc_once_enter in %s" % f.name)
+                continue
+            nonce += 1
+            fc = Facts(f)
+            ok = len(enters) == 1 and len(leaves) == 1
+            if ok:
+                e, l = enters[0], leaves[0]
+                def in_false_branch(node, e=e):
+                    """node lies in the branch of `if (<enter call>)` taken when orc_once_enter returned FALSE."""
+                    prev, x = node, node.parent
+                    while x is not None:
+                        if x.k == "IfStmt" and x.c[0] is not None:
+                            n_, pol = _atom(x.c[0], True)
+                            if n_ is not None and n_.id == e.id:
+                                if prev is x.c[1]:
+                                    return pol is False          # then-branch of `if (!enter)`
+                                if len(x.c) > 2 and prev is x.c[2]:
+                                    return pol is True           # else-branch of `if (enter)`
+                        prev, x = x, x.parent
+                    return False
+                guarded = in_false_branch(l)
+
+                def only_false(b, idx, e=e, f=f):
+                    blk = f.blocks[b]
+                    if blk.cond is None:
+                        return True
+                    n_, pol = _atom(blk.cond, True)
+                    if n_ is not None and n_.id == e.id:
+                        ek = f.edge_kind(b, idx)
+                        return ek is None or ek != pol        # enter returned FALSE
+                    return True
+                escape = paths_avoiding(f, e, lambda x: x.k == "CallExpr" and x.name == "orc_once_leave", edge_filter=only_false)
+                compiled = [c for c in f.calls() if c.name and c.name.startswith("orc_program_compile")]
+                between = bool(compiled) and all(in_false_branch(c) and f.dominates(c, l) for c in compiled)
+                ok = guarded and escape is None and between
+            rep.check(ok, "D8-GENERATED-WRAPPERS", w, "%s:once-pairing" % inst,
+                      "enter(FALSE) -> compile -> leave on every path, leave nowhere else",
+                      "generated wrapper %s does not pair orc_once_enter/orc_once_leave on every path (enters %d, leaves %d)" % (f.name, len(enters), len(leaves)))
+    rep.extra["generated_wrappers_analysed"] = nfun
+    if nfun < 100 or nonce < 50:
+        raise AnalysisBroken("only %d generated wrappers (%d with the once protocol) were analysed" % (nfun, nonce))
